@@ -181,6 +181,21 @@ CHECKS: dict[str, dict] = {
         "assumptions": ["an unforced get_schedule may return the cached older version by design (no change counter is read)",
                         "a zone without a schedule answers with the documented 7-byte RP|0404; an error is a legitimate ending"],
     },
+    "C19": {
+        "specs": [("flog", "main", 2400, 80000)],
+        "budget": (120, 1500),
+        "rule": "one run = a history of 3-25 steps over a scripted controller log (0-64 entries preloaded): new fault/restore "
+                "(announcement delivered, lost or duplicated), single RP|0418 for an arbitrary position overheard, "
+                "get_faultlog(start, limit) through QoS with reply loss, loss-free read-throughs from index 0; after every "
+                "step: the view and latest_event/latest_fault/active_faults/status never raise, timestamps strictly "
+                "decrease with position, no timestamp twice, every entry was reported by the controller, a read-through of "
+                "[0,n) with an unchanged log equals the log there, a delivered announcement pushes known entries down by one "
+                "(judged only if no other 0418 reply arrived meanwhile). distinct = distinct step-class sequences",
+        "real": ["ramses_rf.system.faultlog.FaultLog", "system/heat.py Logbook", "parser_0418 / parse_fault_log_entry", "QoS send path incl. "
+                 "the null-entry reply special case", "dispatcher"],
+        "stub": STUB_RF + ["simrf.peers.SimController (fault log, packed timestamps)"],
+        "assumptions": ["timestamps of distinct entries are distinct (>= 1 s apart), as the library assumes"],
+    },
 }
 
 
@@ -253,11 +268,15 @@ MANIFEST_TEXT["C18"] = {
     "text": "Seeded search over fault patterns on every exchange of concurrent schedule transfers; history oracle on results, "
             "versions and the per-system lock, plus a fault-free follow-up per zone.", "design_ref": "DESIGN.md 7/C18",
     "technique": _TECH, "note": "Versions are distinguishable because every switchpoint carries a version marker."}
+MANIFEST_TEXT["C19"] = {
+    "text": "Seeded histories through the whole stack against a scripted controller log used as the reference model; "
+            "invariants after every step.", "design_ref": "DESIGN.md 7/C19", "technique": _TECH,
+    "note": "The controller log is the reference; delivered = what the controller actually put on the air."}
 NOT_APPLICABLE = {
     "C03": "pure function of constructor arguments (decode(build(args)) = args): no schedule, clock, fault, history or second "
            "party to simulate; exhaustive/argument-space enumeration is outside this technique (DESIGN.md 8)",
     "C04": "pure scalar codec inverses over finite enumerable domains: no nondeterminism for a simulator to control "
            "(DESIGN.md 8)",
 }
-for _p in ("C13", "C14", "C15", "C16", "C19", "C20"):
+for _p in ("C13", "C14", "C15", "C16", "C20"):
     NOT_APPLICABLE.setdefault(_p, "applicable, but its engine is not built yet in this round (see DESIGN.md 12 build order)")
